@@ -172,7 +172,13 @@ def tinfoCase : P Verdict := do
     | .variant vs => variantRefs vs
     | .tuple ts => ts
     | _ => []
-  if members.any phantomAt then return .specfail "C17: a built-in impl lists a PhantomData member as a field or tuple element"
+  let mut errs : List String := []
+  if members.any phantomAt then errs := errs ++ ["C17: a built-in impl lists a PhantomData member as a field or tuple element"]
+  match t, ty.def_ with
+  | .array n _, .array m _ => if n != m then errs := errs ++ [s!"C04: array length of [T; {n}] is described as {m}"]
+  | .array n _, _ => errs := errs ++ [s!"C04: [T; {n}] is not described as an array"]
+  | _, _ => pure ()
+  if !errs.isEmpty then return .specfail (" ;; ".intercalate errs)
   if ty.refs.any (fun i => (lookupExpr m i).isNone) then return .diff "a reference of the definition is not in the corpus table"
   match typeInfo docs t with
   | none => return .unmodelled "no model for this type expression"
